@@ -26,6 +26,7 @@ REPO = os.environ.get("VERIF_REPO", "/repo")
 SEED = int(os.environ.get("VERIF_SEED", "1") or "1")
 NCPU = os.cpu_count() or 4
 STRICT = os.environ.get("VERIF_STRICT", "") == "1"
+OUT = os.environ.get("VERIF_OUT", os.path.join(VERIF, "evidence"))   # evidence and replay directory
 
 
 class Infra(Exception):
@@ -275,7 +276,7 @@ def load_known():
 
 
 def save_replay(prop, name, lines):
-    d = os.path.join(VERIF, "evidence", "replays")
+    d = os.path.join(OUT, "replays")
     os.makedirs(d, exist_ok=True)
     p = os.path.join(d, "%s-%s-seed%d.ndjson" % (prop, name, SEED))
     with open(p, "w") as fh:
@@ -326,8 +327,8 @@ class Result:
               "assumptions": self.assumptions, "wall_s": round(time.time() - self.t0, 1),
               "violations": len(set(v[1] for v in self.violations)),
               "known_findings_hit": sorted(self.known_hits.keys())}
-        os.makedirs(os.path.join(VERIF, "evidence"), exist_ok=True)
-        with open(os.path.join(VERIF, "evidence", self.prop + ".json"), "w") as fh:
+        os.makedirs(OUT, exist_ok=True)
+        with open(os.path.join(OUT, self.prop + ".json"), "w") as fh:
             json.dump(ev, fh, indent=1, sort_keys=True)
             fh.write("\n")
         for key, (k, n) in sorted(self.known_hits.items()):
